@@ -111,6 +111,14 @@ func runSolver(ctx context.Context, sc solverCmd, file string, timeoutS int) (st
 	cmd.Stderr = &out
 	_ = cmd.Run()
 	s := out.String()
+	// the verdict is the first line that is not a warning
+	for strings.HasPrefix(s, "WARNING") {
+		if i := strings.Index(s, "\n"); i >= 0 {
+			s = s[i+1:]
+		} else {
+			break
+		}
+	}
 	first := strings.TrimSpace(strings.SplitN(s, "\n", 2)[0])
 	switch first {
 	case "sat", "unsat", "unknown":
